@@ -167,6 +167,10 @@ FailingFrom(inst, i) ==
 
 Min(a, b) == IF a < b THEN a ELSE b
 
+\* Meaning of the cap when more fields fail than the cap (decided from the documentation, not from the code):
+\* "the maximum number of validation errors that will be collected before an exception is thrown" + "number of errors for
+\* each particular field is unlimited in any case"  =>  exactly `cap` FIELDS are reported, the first ones in load order,
+\* each with all of its messages; the load ends at the cap-th failing field.
 \* result: rep = reported entries [i (instance index), msgs] in load order; stop = index of the instance at which the
 \* load ends early (cap reached), or 0 when the load runs to its end
 A(s, inst) ==
